@@ -1,4 +1,4 @@
-import PasetoModel.Rng
+import PasetoModel.RngStream
 /-! # C16 — fresh randomness; fail closed
 For the getrandom-based back ends every randomised operation is a function of the answers of the
 random source; these theorems show (a) any failing draw makes the operation return `CryptoError`
@@ -122,8 +122,37 @@ theorem secretkey_is_draw (b : Backend) (hb : b.version = 2 ∨ b.version = 4) (
     (h : seed.length = 32) : rngSecretKey b (some seed :: rest) = .ok (seed ++ edPub seed) := by
   rcases hb with hb | hb <;> simp [rngSecretKey, hb, draw, h, Res.map, Res.bind]
 
+/-! ## the request-level model is independent of how requests are cut
+
+The harness's scripted random source is a byte stream with failure points: how the library chunks its requests is not
+something the property constrains.  These theorems tie the request-level `draw` used above to that stream-level source. -/
+
+/-- a successful `draw` takes exactly these bytes from the stream, and leaves the stream of the remaining answers -/
+theorem draw_is_stream_take (n : Nat) (s s' : Src) (b : Bytes) (h : draw n s = .ok (b, s')) :
+    takeS n (flat s) = .ok (b, flat s') := draw_refines_stream n s s' b h
+
+/-- a failing answer fails the request that reaches it, at stream level too -/
+theorem stream_fail_closed (n : Nat) (rest : Src) : takeS (n + 1) (flat (none :: rest)) = .err .crypto := rfl
+
+/-- **chunking independence**: one request of `m + n` bytes = a request of `m` then a request of `n`
+    (same bytes, same remaining stream, same failure) -/
+theorem requests_are_chunking_independent (m n : Nat) (s : List SByte) :
+    takeS (m + n) s = (takeS m s).bind (fun (x, s') => (takeS n s').map (fun (y, s'') => (x ++ y, s''))) :=
+  takeS_add m n s
+
+/-- PBKW draws salt then nonce: at stream level that is one request of `saltLen + nonceLen` bytes cut in two, so a
+    library that fetched both with a single request would embed the same salt and nonce -/
+theorem pbkw_draws_as_one_request (b : Backend) (s s1 s2 : Src) (salt nonce : Bytes)
+    (h1 : draw (pbkwOf b).saltLen s = .ok (salt, s1)) (h2 : draw (pbkwOf b).nonceLen s1 = .ok (nonce, s2)) :
+    takeS ((pbkwOf b).saltLen + (pbkwOf b).nonceLen) (flat s) = .ok (salt ++ nonce, flat s2) := by
+  rw [takeS_add, draw_refines_stream _ _ _ _ h1]
+  simp only [Res.bind]
+  rw [draw_refines_stream _ _ _ _ h2]
+  rfl
+
 /-! non-vacuity -/
 example : (draw 2 [some [1, 2], none]) = .ok ([1, 2], [none]) := rfl
+example : takeS 3 (flat [some [1, 2], some [3, 4], none]) = .ok ([1, 2, 3], [some 4, none]) := rfl
 example : drawScalar 3 [some (List.replicate 48 0), none] = .err .crypto := by decide
 
 end PM.C16
